@@ -585,3 +585,5 @@ def run(program, res, tier):
     c08._s2(program, Relabel(res, {"*": "C03-S6"}))
     res.rule("C03-S7", "sibling methods of the two data models agree on returning a value")
     _s7_sibling_returns(program, res)
+    from . import c05
+    c05._s6_concat_missing(program, Relabel(res, {"*": "C03-S3"}))
